@@ -91,6 +91,12 @@ fn victims() -> Vec<(&'static str, Op, bool)> {
         ("remove_fully", Op::RemoveOpts { key: 1, fully: true }, true),
         ("list", Op::List, true),
         ("metadata", Op::Meta { key: 1 }, true),
+        (
+            "link_to",
+            Op::LinkTo(LinkSpec { key: Some(0), blob: 2, target: 0, relative: false, algo: Algo::Sha256, oneshot: true, pre_reads: vec![], declare: Declare::Exact, integ: IntegDecl::None }),
+            false,
+        ),
+        ("index_find_async", Op::IdxFind { key: 1 }, true),
         ("index_insert", Op::IdxInsert { key: 0, fields: IdxFields { integrity: Some(a), size: Some(3), time: Some("5".into()), metadata: None, raw_metadata: None } }, false),
     ]
 }
@@ -119,12 +125,13 @@ fn trace_gates(prog: &Program, victim: usize) -> Result<Vec<Gate>, String> {
 }
 
 fn is_mutating(op: &Op) -> bool {
-    matches!(op, Op::Write(_) | Op::Remove { .. } | Op::RemoveHash { .. } | Op::RemoveOpts { .. } | Op::IdxInsert { .. } | Op::IdxDelete { .. })
+    matches!(op, Op::Write(_) | Op::LinkTo(_) | Op::Remove { .. } | Op::RemoveHash { .. } | Op::RemoveOpts { .. } | Op::IdxInsert { .. } | Op::IdxDelete { .. })
 }
 
 fn op_key(op: &Op) -> Option<usize> {
     match op {
         Op::Write(w) => w.key,
+        Op::LinkTo(l) => l.key,
         Op::Remove { key } | Op::RemoveOpts { key, .. } | Op::IdxInsert { key, .. } | Op::IdxDelete { key } => Some(*key),
         _ => None,
     }
@@ -136,6 +143,7 @@ fn op_addr(ctx: &Ctx, model: &Model, op: &Op) -> Vec<(Algo, String)> {
             let algo = if matches!(w.entry, WEntry::OneShot | WEntry::Create) { Algo::Sha256 } else { w.algo };
             vec![Model::addr_of(ctx, AddrRef { algo, blob: w.blob })]
         }
+        Op::LinkTo(l) => vec![Model::addr_of(ctx, AddrRef { algo: if l.oneshot { Algo::Sha256 } else { l.algo }, blob: l.blob })],
         Op::RemoveHash { addr } => vec![Model::addr_of(ctx, *addr)],
         Op::RemoveOpts { key, fully: true } => {
             model.entry(ctx.key(*key)).and_then(|e| crate::blob::sri_address(&e.integrity)).into_iter().collect()
@@ -205,6 +213,13 @@ impl C13 {
                     let old = model.entry(&key).cloned();
                     let new = match op {
                         Op::Write(w) => Some(Model::expected_entry(ctx, w, t0, t1)),
+                        Op::LinkTo(l) => Some(crate::model::Entry {
+                            integrity: crate::blob::sri(if l.oneshot { Algo::Sha256 } else { l.algo }, &ctx.blob(l.blob)),
+                            size: ctx.blobs[l.blob].len as u64,
+                            time: crate::model::TimeSpec::Window(t0, t1),
+                            metadata: serde_json::Value::Null,
+                            raw_metadata: None,
+                        }),
                         Op::IdxInsert { fields, .. } => fields.integrity.map(|a| crate::model::Entry {
                             integrity: ctx.sri_of(a),
                             size: fields.size.unwrap_or(0) as u64,
@@ -456,7 +471,11 @@ impl Engine for C13 {
         basic::sweep_keys(&ctx, &mut model, st, true, 0).map_err(|e| format!("{what}; afterwards: {e}"))?;
         basic::sweep_addrs(&ctx, &mut model, st, &addrs, 0).map_err(|e| format!("{what}; afterwards: {e}"))?;
         basic::sweep_list(&ctx, &mut model, st).map_err(|e| format!("{what}; afterwards: {e}"))?;
-        basic::content_invariant(&ctx, &model, false).map_err(|e| format!("{what}; afterwards: {e}"))?;
+        // strict: nothing in these cases is harness damage, so every file must be complete and valid
+        let bad = crate::reffmt::content_tree_violations(&ctx.cache, false);
+        if !bad.is_empty() {
+            return Err(format!("{what}; afterwards the content area is invalid: {}", bad.join("; ")));
+        }
         // (4) once the fault is gone the same call behaves normally
         let r = run_step(&ctx, vstep);
         st.eval(1);
